@@ -401,7 +401,12 @@ class Report:
             known_findings_hit=[k["id"] for k in self.known_hit],
         )
         if self.exhaustive is not None:
-            cov["exhaustive"] = self.exhaustive
+            # the schema's `exhaustive` is a boolean about the run as a whole; a description of the finite sub-spaces that were
+            # enumerated completely goes under its own key
+            if isinstance(self.exhaustive, bool):
+                cov["exhaustive"] = self.exhaustive
+            else:
+                cov["exhaustive_parts"] = self.exhaustive
         ev = dict(property_id=self.prop, tier=self.tier, seed=self.seed, level=self.level,
                   coverage=cov, assumptions=self.assumptions, wall_s=round(time.time() - self.t0, 2),
                   violations=len(seen) + (1 if (tie_broken and not self.violations) else 0))
